@@ -400,6 +400,8 @@ type printItem struct {
 	w int
 }
 
+var itemLimit = 10000
+
 func runParser(chunks [][]byte) (items []string, prints []printItem, errs int, eofs int, ok bool) {
 	cp := make([][]byte, len(chunks))
 	for i := range chunks {
@@ -416,7 +418,7 @@ func runParser(chunks [][]byte) (items []string, prints []printItem, errs int, e
 	n := 0
 	for seq := range p.Next() {
 		n++
-		if n > 10000 {
+		if n > itemLimit {
 			return items, prints, errs, eofs, false
 		}
 		switch s := seq.(type) {
@@ -587,6 +589,89 @@ func checkInput(state int, input []byte, desc string) {
 	r.Distinct(explore.Hash(string(input)))
 }
 
+// bulkSweep: streams longer than any buffer on the way (bufio's 4096 bytes, the parser's channel), whole and
+// cut into reads of sizes around those limits.
+func bulkSweep() {
+	itemLimit = 1 << 20
+	defer func() { itemLimit = 10000 }()
+	var streams []struct{ name, s string }
+	var mixed strings.Builder
+	for _, sep := range []string{"x", "\u4e16", "\x1b[1;2m"} {
+		for _, a := range alphabet {
+			for _, b := range alphabet {
+				mixed.WriteString(a.b)
+				mixed.WriteString(b.b)
+				mixed.WriteString(sep)
+			}
+		}
+	}
+	streams = append(streams, struct{ name, s string }{"every ordered pair of alphabet symbols, three separators", mixed.String()})
+	long := strings.Repeat("ab\u4e16e\u0301 ", 1200)
+	streams = append(streams,
+		struct{ name, s string }{"9.6 KiB of text", long},
+		struct{ name, s string }{"OSC with a 9000-byte payload", "a\x1b]0;" + strings.Repeat("t\u00e9", 3000) + "\x1b\\b"},
+		struct{ name, s string }{"DCS with 9000 bytes of data", "a\x1bP1;2q" + strings.Repeat("d~", 4500) + "\x1b\\b"},
+		struct{ name, s string }{"APC with a 9000-byte payload", "a\x1b_G" + strings.Repeat("p=", 4500) + "\x1b\\b"},
+		struct{ name, s string }{"3000 short CSI sequences", strings.Repeat("\x1b[1;2A\x1b[m", 1500)},
+		struct{ name, s string }{"CSI with 3000 parameters", "\x1b[" + strings.Repeat("1;", 3000) + "mz"},
+		struct{ name, s string }{"CSI with a 5000-digit parameter", "\x1b[" + strings.Repeat("7", 5000) + ";3mz"},
+		struct{ name, s string }{"5000 invalid bytes between text", "a" + strings.Repeat("\xff\xc3", 2500) + "b"})
+	for _, st := range streams {
+		input := []byte(st.s)
+		want, outside := reference(input)
+		if outside {
+			r.Count("outside_alphabet", 1)
+			continue
+		}
+		for _, size := range []int{0, 4096, 4095, 4097, 1000, 7} {
+			var chunks [][]byte
+			if size == 0 {
+				chunks = [][]byte{input}
+			} else {
+				for i := 0; i < len(input); i += size {
+					j := i + size
+					if j > len(input) {
+						j = len(input)
+					}
+					chunks = append(chunks, input[i:j])
+				}
+			}
+			r.Count("parser_runs", 1)
+			got, _, _, eofs, ok := runParser(chunks)
+			d := detail{State: "ground", Input: fmt.Sprintf("%s (%d bytes)", st.name, len(input)), Chunks: []string{fmt.Sprintf("reads of %d bytes (0 = one read)", size)}}
+			switch {
+			case !ok:
+				r.Violation("C02|bulk|no-termination", size, d)
+			case eofs != 1:
+				d.Why = fmt.Sprintf("%d end-of-input markers", eofs)
+				r.Violation("C02|bulk|eof-marker", size, d)
+			case strings.Join(got, "\x00") != strings.Join(want, "\x00"):
+				i := 0
+				for i < len(got) && i < len(want) && got[i] == want[i] {
+					i++
+				}
+				g, w := "(nothing)", "(nothing)"
+				if i < len(got) {
+					g = got[i]
+				}
+				if i < len(want) {
+					w = want[i]
+				}
+				if len(g) > 80 {
+					g = g[:80] + "..."
+				}
+				if len(w) > 80 {
+					w = w[:80] + "..."
+				}
+				d.Why = fmt.Sprintf("item %d of %d is %q, the state machine delivers %q (of %d)", i, len(got), g, w, len(want))
+				r.Violation("C02|bulk|sequence", size, d)
+			default:
+				r.Distinct(explore.Hash("bulk", st.name, fmt.Sprint(size)))
+			}
+		}
+	}
+}
+
 func firstDiffKind(got, want []string) string {
 	for i := 0; i < len(got) || i < len(want); i++ {
 		var g, w string
@@ -658,6 +743,9 @@ func main() {
 				rec(nil, nil, 0)
 			}
 			if idx == 0 {
+				bulkSweep()
+			}
+			if idx == 0 {
 				r.Sample(map[string]any{"entered_state": "csi-param", "suffix": "; : 7 m", "input": "\x1b[1;:7mx", "reads": "all 2^7 splits"})
 			}
 		case "params":
@@ -716,7 +804,7 @@ func main() {
 	n := r.Get("parser_runs")
 	r.Finish(explore.Coverage{
 		States: -1, Transitions: n, Traces: n, Evaluations: n,
-		Rule:       "for each of the 16 parser states (entered by its shortest prefix) and 12 further prefixes (each string state with content consumed, the states just after a string was left by ESC or cancelled by CAN/SUB): every suffix of <= n symbols over a 30-symbol alphabet with one or two representatives per byte class of the state table (C0, BEL, CAN, SUB, ESC, 0x20-2F, digits, ':', ';', 0x3C-3F, every state-changing final of the escape state, ordinary finals, DEL, 2/3/4-byte scalars, a combining mark, U+FFFD, an invalid byte) followed by a sentinel 'x', fed to the real ansi.Parser under every split into reads (all 2^(len-1) splits up to 6 bytes, every single split beyond); plus every CSI and DCS parameter string of <= 6 elements over {0, 7, a 19-digit number, ;, :} and 59 boundary values (all last digits next to 2^31-1, one digit more, neighbours of 2^8/2^15/2^16/2^32/2^63/2^64) bare and with leading zeros in 9 list / sub-parameter positions. Compared with an independent transcription of the vt100.net state table with the documented extensions; text runs are compared after merging Prints, each Print's width and (unsplit) cluster boundaries against uniseg. distinct = inputs that passed under all splits",
+		Rule:       "for each of the 16 parser states (entered by its shortest prefix) and 12 further prefixes (each string state with content consumed, the states just after a string was left by ESC or cancelled by CAN/SUB): every suffix of <= n symbols over a 30-symbol alphabet with one or two representatives per byte class of the state table (C0, BEL, CAN, SUB, ESC, 0x20-2F, digits, ':', ';', 0x3C-3F, every state-changing final of the escape state, ordinary finals, DEL, 2/3/4-byte scalars, a combining mark, U+FFFD, an invalid byte) followed by a sentinel 'x', fed to the real ansi.Parser under every split into reads (all 2^(len-1) splits up to 6 bytes, every single split beyond); plus every CSI and DCS parameter string of <= 6 elements over {0, 7, a 19-digit number, ;, :} and 59 boundary values (all last digits next to 2^31-1, one digit more, neighbours of 2^8/2^15/2^16/2^32/2^63/2^64) bare and with leading zeros in 9 list / sub-parameter positions. Bulk: 9 streams of 5-20 KiB (all ordered pairs of alphabet symbols, long text, 9000-byte OSC/DCS/APC payloads, thousands of CSI sequences / parameters / digits, thousands of invalid bytes), whole and in reads of 4096, 4095, 4097, 1000 and 7 bytes. Compared with an independent transcription of the vt100.net state table with the documented extensions; text runs are compared after merging Prints, each Print's width and (unsplit) cluster boundaries against uniseg. distinct = inputs that passed under all splits",
 		Exhaustive: true,
 		Bounds:     map[string]any{"suffix_len": maxLen, "alphabet": len(alphabet), "skipped_outside_alphabet": r.Get("outside_alphabet")},
 		Assumptions: []string{"the ST that ends a string is suppressed iff the string state consumed at least one character (pinned by the repository's TestOSC)",
